@@ -100,3 +100,77 @@ _df.no_bounded = True
 _df.timeout_ms = 150000       # nonlinear real arithmetic of the scaled paths (spike: 13 s .. minutes)
 _df.modular = False
 CONTRACTS.append(_df)
+
+
+# --------------------------------------------------------------------------- C15: sign of the comparison difference (model M_u)
+import ast as _ast
+
+
+def _find_diff_expr(interp):
+    """Mechanically extract, from the real Phase.__array_ufunc__, the expression assigned to `diff`
+    in the comparison branch (everything else of that method is dropped: NumPy dispatch is not modelled)."""
+    mod, cls, fn, kind = interp.repo.get_function("pulsarbat.pulsar.phase.Phase.__array_ufunc__")
+    for node in _ast.walk(fn):
+        if isinstance(node, _ast.If) or isinstance(node, _ast.stmt):
+            pass
+    cands = [n for n in _ast.walk(fn) if isinstance(n, _ast.Assign) and len(n.targets) == 1
+             and isinstance(n.targets[0], _ast.Name) and n.targets[0].id == "diff"]
+    if len(cands) != 1:
+        from pyvc.ctx import Unsupported
+        raise Unsupported(f"expected exactly one assignment to `diff` in Phase.__array_ufunc__, found {len(cands)}")
+    return mod, cands[0].value
+
+
+def _diff_body(interp, ctx, args, kwargs):
+    from pyvc.interp import Env
+    i0, f0, i1, f1 = args
+    mod, expr = _find_diff_expr(interp)
+    env = Env(mod)
+    env.vars["phases"] = [{"int": i0, "frac": f0}, {"int": i1, "frac": f1}]
+    return interp.eval(expr, env, ctx)
+
+
+class SignRel:
+    def __init__(self, D, m=None):
+        self.D, self.m = D, m
+
+    def compare_to(self, interp, ctx, name, got):
+        D = V.Z(self.D)
+        g = V.Z(got)
+        th = z3.Q(1, 2 ** 52)
+        # manual case split on the (exact, integer) difference of the counts: each case is easy
+        m = V.Z(self.m)
+        for lab, cond in (("m<=-2", m <= -2), ("m=-1", m == -1), ("m=0", m == 0), ("m=1", m == 1), ("m>=2", m >= 2)):
+            ctx.oblige(f"{name}.no-sign-inversion+[{lab}]", z3.Implies(z3.And(cond, D > 0), g >= 0), "post")
+            ctx.oblige(f"{name}.no-sign-inversion-[{lab}]", z3.Implies(z3.And(cond, D < 0), g <= 0), "post")
+        ctx.oblige(f"{name}.equal-values-compare-equal", z3.Implies(D == 0, g == 0), "post")
+        ctx.oblige(f"{name}.resolves-above-2^-52+", z3.Implies(D > th, g > 0), "post")
+        ctx.oblige(f"{name}.resolves-above-2^-52-", z3.Implies(D < -th, g < 0), "post")
+
+    def compare_concrete(self, got, where, out, pb):
+        pass
+
+
+def spec_cmp_diff(c, i0, f0, i1, f1):
+    """the quantity compared with 0 has the sign of the exact two-part difference."""
+    return SignRel(V.sub(V.add(i0, f0), V.add(i1, f1)), V.sub(i0, i1))
+
+
+def pre_cmp(c, i0, f0, i1, f1):
+    h = z3.Q(1, 2)
+    c.requires(z3.And(V.Z(i0) <= B52, V.Z(i0) >= -B52, V.Z(i1) <= B52, V.Z(i1) >= -B52,
+                      V.Z(f0) <= h, V.Z(f0) >= -h, V.Z(f1) <= h, V.Z(f1) >= -h), "normalised operands, counts up to 2^52")
+
+
+def inst_cmp():
+    def build(interp, ctx, nm):
+        return (nm.int("i0", 5), nm.real("f0", Fraction(1, 4)), nm.int("i1", 5), nm.real("f1", Fraction(1, 8))), {}
+    return [Instance("normalised", build)]
+
+
+_cd = Contract("pulsarbat.pulsar.phase.Phase.__array_ufunc__#comparison-diff", spec_cmp_diff, inst_cmp(), props=("C15",), body=_diff_body)
+_cd.pre = pre_cmp
+_cd.on_path_start = mu_on
+_cd.no_bounded = True
+_cd.timeout_ms = 60000
+CONTRACTS.append(_cd)
